@@ -122,7 +122,8 @@ def tiger_getline_preamble_stack(vm):
     vm.readline()
     # The whole line is handed to the caller: nothing of it is left for getchar.
     vm.input_pos = len(vm.input_buffer)
-    vm.registers[1] = len(vm.input_buffer) + 1
+    # A line too long for any block is still asked for as a 16-bit size: malloc refuses it.
+    vm.registers[1] = min(len(vm.input_buffer) + 1, 0xFFFF)
 
 
 def tiger_getline_epilogue_stack(vm):
@@ -670,7 +671,8 @@ def tiger_getline_preamble_reg(vm):
     vm.readline()
     # The whole line is handed to the caller: nothing of it is left for getchar.
     vm.input_pos = len(vm.input_buffer)
-    vm.registers[1] = len(vm.input_buffer) + 1
+    # A line too long for any block is still asked for as a 16-bit size: malloc refuses it.
+    vm.registers[1] = min(len(vm.input_buffer) + 1, 0xFFFF)
 
 
 def tiger_getline_epilogue_reg(vm):
